@@ -77,6 +77,7 @@ def generate(rng, tier):
     elif w == 'pdhg_lyap':
         cfg = _gen_saddle(rng, 'pdhg')
         cfg['theta'] = 1.0
+        cfg.pop('accel', None)        # constant steps for the Lyapunov check
         plan['config'] = cfg
         plan['niter'] = rng.randint(5, 60)
     elif w == 'fixed_point':
@@ -86,6 +87,12 @@ def generate(rng, tier):
     elif w == 'liveness':
         solver = rng.choice(LIVE_SOLVERS)
         cfg = _gen_saddle(rng, solver)
+        # accelerated PDHG converges only like O(1/N) in the iterate (it is
+        # legitimately far slower than the linear rate of the plain method on
+        # these instances), so no fixed iteration bound is sound for it: it
+        # takes part in the fixed-point workload only
+        cfg.pop('accel', None)
+        cfg.pop('accel_frac', None)
         cfg['default_steps'] = (solver in ('pdhg', 'douglas_rachford') and
                                 rng.random() < 0.3)
         plan['config'] = cfg
@@ -126,6 +133,11 @@ def _gen_saddle(rng, solver):
     cfg['tau_frac'] = round(rng.uniform(0.3, 0.95), 4)
     cfg['ratio'] = rng.choice([1.0, 0.25, 4.0])
     cfg['theta'] = 1.0
+    if solver == 'pdhg' and rng.random() < 0.35:
+        # accelerated PDHG (Chambolle-Pock Alg. 2): needs a strongly convex
+        # f (gamma_primal) or a smooth g, i.e. strongly convex g* (gamma_dual)
+        cfg['accel'] = rng.choice(['primal', 'dual'])
+        cfg['accel_frac'] = round(rng.uniform(0.2, 1.0), 3)
     cfg['lam_relax'] = rng.choice([1.0, 1.0, 0.7, 1.5])
     cfg['sigma'] = rng.choice([0.5, 1.0, 2.0])
     return cfg
@@ -180,14 +192,22 @@ class Saddle(object):
             raise Reject('zero operator')
         frng = random.Random(derive('c12f', cfg['fseed']))
         fams = kkt.KKT_FAMILIES
+        accel = cfg.get('accel')
         if 'f' not in cfg:
-            cfg['f'] = P.gen_func_for(frng, self.X, fams)
+            ffams = ('l2sq', 'l2sq_trans', 'quadpert', 'quadpert_smooth') \
+                if accel == 'primal' else fams
+            cfg['f'] = P.gen_func_for(frng, self.X, ffams)
         self.f = P.build_func(cfg['f'], self.X)
         self.gs = []
         for i, L in enumerate(self.Ls):
             key = 'g%d' % i
             if key not in cfg:
-                cfg[key] = P.gen_func_for(frng, L.range, fams)
+                gfams = ('l2sq', 'l2sq_trans', 'huber', 'quadpert_smooth') \
+                    if accel == 'dual' else fams
+                cfg[key] = P.gen_func_for(frng, L.range, gfams)
+                if accel == 'dual' and cfg[key]['fam'] in ('sepsum', 'groupl1',
+                                                           'l2sq_p'):
+                    raise Reject('dual acceleration needs a smooth g')
             self.gs.append(P.build_func(cfg[key], L.range))
         self.h = None
         if self.solver in ('forward_backward', 'proximal_gradient',
@@ -220,7 +240,8 @@ class Saddle(object):
                               for i in range(len(self.Ls))),
                      P.func_tag(cfg['h']) if self.h is not None else '-',
                      ','.join(P.op_tag(c) for c in cfg['Ls']),
-                     cfg['X']['kind'])
+                     cfg['X']['kind']) + (
+            ('accel-' + cfg['accel'],) if cfg.get('accel') else ())
 
     # -- constructed solution: add linear terms ---------------------------
     def _construct(self, gg):
@@ -317,6 +338,17 @@ class Saddle(object):
             n = self.norms[0]
             self.tau = cfg['tau_frac'] / n * cfg['ratio']
             self.sigma = cfg['tau_frac'] / n / cfg['ratio']
+            self.accel_kw = {}
+            if cfg.get('accel') == 'primal':
+                mu = P.strong_convexity(cfg['f'])
+                if not mu > 0:
+                    raise Reject('f not strongly convex')
+                self.accel_kw = {'gamma_primal': cfg['accel_frac'] * mu}
+            elif cfg.get('accel') == 'dual':
+                lip = P.true_lipschitz(cfg['g0'])
+                if not (np.isfinite(lip) and lip > 0):
+                    raise Reject('g not smooth')
+                self.accel_kw = {'gamma_dual': cfg['accel_frac'] / lip}
         elif s == 'admm':
             # balanced parameters: sigma ~ ||L||, so that tau ~ 1/||L|| is of
             # the size an independent PDHG would use (an admissible but tiny
@@ -356,6 +388,7 @@ class Saddle(object):
                 S.pdhg(x, self.f, self.gs[0], self.Ls[0], niter,
                        callback=callback, **kw)
             else:
+                kw.update(self.accel_kw)
                 S.pdhg(x, self.f, self.gs[0], self.Ls[0], niter, tau=self.tau,
                        sigma=self.sigma, theta=self.cfg['theta'],
                        callback=callback, **kw)
